@@ -57,10 +57,10 @@ INCONCLUSIVE = {
     ('pharmpy.modeling.data', 'add_time_after_dose'): {
         'why': "writes into `temp.dataset` of a model it created itself two lines earlier (every `.dataset` is "
                "treated as the input dataset)",
-        'sites': {('add_time_after_dose', "store into df['_DOSEID']")}},
+        'sites': {('add_time_after_dose', "store into df['_DOSEID']"), ('add_time_after_dose', "store into df['_POS']")}},
     ('pharmpy.modeling.data', 'get_concentration_parameters_from_data'): {
         'why': 'calls add_time_after_dose',
-        'sites': {('add_time_after_dose', "store into df['_DOSEID']")}},
+        'sites': {('add_time_after_dose', "store into df['_DOSEID']"), ('add_time_after_dose', "store into df['_POS']")}},
     ('pharmpy.modeling.data', 'check_dataset'): {
         'why': 'the Checker instance holds the dataset and mutates its own result dict / list (field-insensitive)',
         'sites': {('Checker.set_result', '.append(...) mutates the receiver'), ('Checker.__init__', 'store into self.dataset'),
@@ -68,11 +68,11 @@ INCONCLUSIVE = {
                   ('Checker.print', 'store into self.check_results[code]'), ('Checker.print', 'unknown method .add_row(...)')}},
 }
 # returned-model defects that are listed: (function, oracle tag) -> finding id
-RETURNED_FINDINGS = {('drop_columns', 18): 'C06-DROP-COLUMNS-UNDEFINED', ('set_dvid', 19): 'C06-SETDVID-CATEGORIES-NOT-SERIALIZABLE'}
+RETURNED_FINDINGS = {('drop_columns', 18): 'C06-DROP-COLUMNS-UNDEFINED'}
 # (CompartmentalSystem was repaired in /repo 698ece8: its table must be consistent now)
-# (ColumnInfo repaired in /repo d301152, frozenmapping in e8b6237: their tables must be consistent now)
-EQHASH_FINDINGS = {'Model': 'C06-MODEL-HASH-UNCOMPARED'}
-EQHASH_EXPECTED = {'Model': [('initial_individual_estimates', 0), ('dataset', 1)]}
+# (ColumnInfo repaired in /repo d301152, frozenmapping in e8b6237, Model in 15b36e3: EVERY table must be consistent now)
+EQHASH_FINDINGS = {}
+EQHASH_EXPECTED = {}
 
 
 # ============================================================================================ Coq printers
@@ -894,6 +894,15 @@ def wf_part(ctx, tabs, B, fns):
         if tags:
             ctx.violation(f"{sp['function']} modifies the dataset of the model passed to it: {'; '.join(detail)[:300]}",
                           {'spec': sp, 'tags': tags, 'tag_meaning': TAGS[21]})
+    # witnesses of repaired returned-model defects
+    for sp in [s for s in specs if s.get('k') == 'returned']:
+        w = dict(sp)
+        w['kind'] = 'returned'
+        how, (term, pytags) = finding_witness_case({'witness': w}, tabs, B, fns)
+        ctags = ctx.run_cases('regress-returned', IMPORTS, 'case', [term], 'verdict')[0]
+        ctx.coverage['regress_returned'] = ctx.coverage.get('regress_returned', 0) + 1
+        for t in sorted(set(pytags) | {t for t in ctags if t in ORACLE_TAGS}):
+            ctx.violation(f"model returned by {sp['function']}: {TAGS[t]}", {'spec': sp, 'tags': [t], 'tag_meaning': TAGS[t]})
     specs = [s for s in specs if s.get('k') in ('create', 'replace', 'names', 'set_inits', 'rvs_seq', 'rvs_single', 'rvs_add', 'canon')]
     n = 500 if ctx.tier == 'quick' else 8000
     specs += [gen_spec(ctx.rng) for _ in range(n)]
@@ -1078,11 +1087,6 @@ def oracle_part(ctx, eff):
                               {'kind': 'returned-model', 'model': w, 'tags': sorted(tags), 'tag_meaning': TAGS[t]})
     for w in wf:
         if w.get('code_ok') is False:
-            fid = RETURNED_FINDINGS.get((w['function'], 19))
-            if fid and ctx.open_finding(fid) and 'int8' in str(w.get('code_err')):
-                ctx.coverage.setdefault('known_hits', {}).setdefault(fid, 0)
-                ctx.coverage['known_hits'][fid] += 1
-                continue
             ctx.violation(f"model returned by {w['function']}: code cannot be produced ({w.get('code_err')})",
                           {'kind': 'returned-model', 'model': w, 'tags': [19], 'tag_meaning': TAGS[19]})
         if w.get('update_source_mutated'):
